@@ -1188,7 +1188,7 @@ TEXT ·openAsm(SB), NOSPLIT, $0-112
     MOVQ tagSize+8(FP), TagSize
     SUBQ TagSize, CipherLen
     ADDQ CipherLen, Cipher
-    constantTimeCompare(ETag, Cipher, TagSize,Reg1,Reg2,RegT1)
+    constantTimeCompare(Cipher, ETag, TagSize,Reg1,Reg2,RegT1)
 
     CMPQ Reg2, $0
     JNE tagUnMatch
